@@ -162,19 +162,42 @@ def control_superop(d, m, r, cid):
     raise ValueError(cid)
 
 
+def control_time(c, dt, start, float_times=False):
+    r, post, kind = c[0], c[1], c[4]
+    if kind == "f-":
+        return float(start + (r - 0.3) * dt)
+    if kind == "f+":
+        return float(start + (r + 0.3) * dt)
+    if float_times and (r % 2 == 1):
+        # all controls of one step and side share the same float time
+        return float(start + (r + (-0.3 if post else 0.3)) * dt)
+    return int(r)
+
+
 def build_control(case, dt, start, float_times=False):
     import oqupy
     d, m = case["d"], case["m"]
     ctrl = oqupy.Control(d)
     for c in sorted(case["ctl"], key=lambda c: c[3]):
-        r, post, cid = c[0], c[1], c[2]
-        when = int(r)
-        if float_times and (r % 2 == 1):
-            # float time that rounds to step r (a little late for pre, early for post controls);
-            # all controls of one step and side share the same float time
-            when = float(start + (r + (-0.3 if post else 0.3)) * dt)
-        ctrl.add_single(when, control_superop(d, m, r, cid), post=bool(post))
+        ctrl.add_single(control_time(c, dt, start, float_times), control_superop(d, m, c[0], c[2]),
+                        post=bool(c[1]))
     return ctrl
+
+
+def unitary_log_hamiltonian(u, tau):
+    """Hermitian H with expm(-1j H tau) = u."""
+    from scipy.linalg import logm
+    h = 1j * logm(u) / tau
+    return (h + h.conj().T) / 2
+
+
+def step_unitaries(case):
+    d, m = case["d"], case["m"]
+    out = {}
+    for item in case["plan"]:
+        if item[0] in ("h1", "h2"):
+            out[(item[0], item[1])] = sys_unitary(d, item[2], m)
+    return out
 
 
 def expected_state(rec, rho0, d, m):
